@@ -28,6 +28,8 @@ ASSUMPTIONS = ['schedules and clocks play no role: the deciding dimension is the
                'exercised: the upstream pycose installed here cannot encode it']
 CHUNK = 4
 BUDGET = {'quick': 40, 'thorough': 600}
+#: one run makes hundreds of evaluations (each a freshly sourced, altered, delivered bundle): longer per-run watchdog
+WATCHDOG_S = 900
 
 
 def gen(ch, tier):
